@@ -102,19 +102,25 @@ class CHECK(core.Check):
                "the oracle's exact geometry (Fractions, generic-direction ray casting, simplicity test) written for this check",
                "integer coordinates only: float inputs (rounding in products) are outside the model"]
     PARTIAL = ["C44_full (crossing sum = geometric interior for every simple polygon, i.e. the Jordan curve theorem for "
-               "polygons) is NOT proved; proved instance: C44_rectangle_interior_partial (every axis-parallel rectangle, with the rotation / "
-               "reversal / translation theorems); the general statement rests on the exhaustive and random comparisons with exact ray casting",
+               "polygons) is NOT proved for non-convex simple polygons. Proved: every CONVEX polygon with integer vertices in "
+               "either orientation (C44_convex_interior, C44_convex_classification; decidable predicate Convex = no "
+               "zero-length side and every vertex on or left of every side line, one way round or the other) and every "
+               "axis-parallel rectangle (C44_rectangle_interior_partial); for non-convex simple polygons the statement rests "
+               "on the exhaustive and random comparisons with exact ray casting",
                "float coordinates"]
     TECHNIQUE = ("Lean 4 theorems for arbitrary vertex lists (loop invariants, cyclic-pairs lemmas, polynomial identities by "
                  "grind) + bounded-exhaustive and random comparison of the real functions with the model and with exact geometry")
     LEVEL_TEXT = ("Proof on the model, all integer points and vertex lists: tween2 <-> p = u + t(v-u) with rational t in [0,1]; "
                   "sideOnly <-> vertex or on a side; exactly one of insideOnly / sideOnly / outsideOnly, inside/outside = strict "
                   "part or (side flag and boundary); wind = 0 <-> not strictly inside; wind(reverse) = -wind; invariance under "
-                  "rotation of the vertex list and translation. PARTIAL: agreement of the strict interior with geometry is "
-                  "proved only for axis-parallel rectangles (C44_rectangle_interior_partial), not for every simple polygon (Jordan); there the evidence is "
-                  "the exhaustive/random agreement with exact rational ray casting.")
+                  "rotation of the vertex list and translation. Agreement with geometry is PROVED for every convex polygon "
+                  "(either orientation, collinear vertices allowed): strictly inside <-> strictly on the same side of every side, "
+                  "boundary <-> on a side, wind != 0 <-> inside (C44_convex_interior, C44_convex_classification); for any closed "
+                  "polygon a point strictly left of every side is inside and a polygon strictly on one side of a line through the "
+                  "point does not wind round it. PARTIAL: for non-convex simple polygons (Jordan) the agreement is evidence only: "
+                  "exhaustive/random agreement with exact rational ray casting.")
     LEVEL_NOTE = ("Trusted: Lean kernel; axioms propext, Classical.choice, Quot.sound; hand transcription of vectoring.py "
-                  "validated by the correspondence runs; the oracle's own geometry; no proof of the Jordan-curve part.")
+                  "validated by the correspondence runs; the oracle's own geometry; no proof of the Jordan-curve part for non-convex polygons.")
 
     # ------------------------------------------------------------------ generation
     def exhaustive(self, tier):
